@@ -97,6 +97,7 @@ func drawDecodeOptions(t *rapid.T, c *core.Ctx, f *model.File) gen.Config {
 
 func genStructural(rt *rapid.T, c *core.Ctx, prof *sgen.Profile) *model.File {
 	f := prof.File(rt, "prog.json")
+	maybeStaleLegacy(rt, c, f, 5)
 	return f
 }
 
@@ -183,6 +184,9 @@ func TestC03(t *testing.T) {
 		}
 		if rapid.IntRange(0, 2).Draw(rt, "nullarrays") == 0 {
 			addNullItemArrays(rt, c, f)
+		}
+		if f.Root.Kind == model.KObject && rapid.IntRange(0, 2).Draw(rt, "nullablemaps") == 0 {
+			addNullableMaps(rt, c, f)
 		}
 		if rapid.IntRange(0, 3).Draw(rt, "fracmultint") == 0 && f.Root.Kind == model.KObject {
 			// an integer stays an integer whatever its multipleOf says (1.5 and 1.25 keep the tool's
@@ -323,6 +327,12 @@ func TestC02(t *testing.T) {
 	plan := &docPlan{NValid: 16, Remarshal: true, NTValid: func(v jv.V) bool { return true }}
 	runProperty(c, "run", c.N(250, 6000), 0, func(rt *rapid.T) *RunCase {
 		f := genStructural(rt, c, prof)
+		if f.Root.Kind == model.KObject && rapid.IntRange(0, 3).Draw(rt, "namecollision") == 0 {
+			addNameCollision(rt, c, f)
+		}
+		if f.Root.Kind == model.KObject && rapid.IntRange(0, 3).Draw(rt, "nulllistedenums") == 0 {
+			addNullListedEnums(rt, c, f)
+		}
 		addOptionalDefaults(rt, c, f, 0.15, o)
 		files := []*model.File{f}
 		if rapid.IntRange(0, 4).Draw(rt, "sibling") == 0 {
@@ -347,6 +357,25 @@ func TestC02(t *testing.T) {
 	}, stdJudge)
 }
 
+// addNullableMaps: property-less objects whose values are nullable primitives
+// ([T,"null"] in either order -> map[string]*T), as a property, behind a
+// reference and as array elements: a value of another type must be rejected,
+// null accepted.
+func addNullableMaps(t *rapid.T, c *core.Ctx, f *model.File) {
+	mk := func(label string) *model.Node {
+		k := rapid.SampledFrom([]model.Kind{model.KString, model.KInteger, model.KNumber, model.KBoolean}).Draw(t, label)
+		return &model.Node{Kind: model.KObject, Additional: &model.Additional{Schema: &model.Node{Kind: k, Nullable: true, NullFirst: rapid.Bool().Draw(t, label+"nf")}}}
+	}
+	direct, viaRef, inArr := mk("nm0"), mk("nm1"), mk("nm2")
+	f.Defs = append(f.Defs, model.Def{Name: "ZNullMap", Node: viaRef})
+	f.Root.Props = append(f.Root.Props,
+		model.Prop{Name: "znullmap", Node: direct},
+		model.Prop{Name: "znullmapref", Node: &model.Node{Kind: model.KRef, Ref: "#/$defs/ZNullMap", Target: viaRef}},
+		model.Prop{Name: "znullmaplist", Node: &model.Node{Kind: model.KArray, Items: inArr}})
+	f.Root.Required = append(f.Root.Required, "znullmap")
+	c.Count("shape.map_with_nullable_values")
+}
+
 // addNameCollision adds two object schemas that compete for one Go type name
 // (nesting-depth concatenation: colx.yz vs colx_yz; or a definition named like
 // <OtherDef><Property>) and declare the same property names with different
@@ -360,7 +389,25 @@ func addNameCollision(t *rapid.T, c *core.Ctx, f *model.File) {
 			{Name: "tags", Node: &model.Node{Kind: model.KArray, Items: &model.Node{Kind: ak}}},
 		}, Required: []string{"id"}}
 	}
-	switch rapid.IntRange(0, 1).Draw(t, "colshape") {
+	switch rapid.IntRange(0, 2).Draw(t, "colshape") {
+	case 2:
+		// three schemas for one name: colship.toAddress, colshipTo.address, colshipToAddress ->
+		// all <Root>ColshipToAddress. The first differs from the second; the third equals the
+		// second (it may share its declaration, never the first one's) or differs from both.
+		first, second := leafObj(perm[0], perm[1]), leafObj(perm[1], perm[0])
+		third := leafObj(perm[1], perm[0])
+		if rapid.Bool().Draw(t, "thirddiffers") {
+			third = leafObj(perm[2], perm[3])
+		}
+		wrap := func(name string, n *model.Node) *model.Node {
+			return &model.Node{Kind: model.KObject, Props: []model.Prop{{Name: name, Node: n}}, Required: []string{name}}
+		}
+		f.Root.Props = append(f.Root.Props,
+			model.Prop{Name: "colship", Node: wrap("toAddress", first)},
+			model.Prop{Name: "colshipTo", Node: wrap("address", second)},
+			model.Prop{Name: "colshipToAddress", Node: third})
+		f.Root.Required = append(f.Root.Required, "colship", "colshipTo", "colshipToAddress")
+		c.Count("shape.name_collision_three_way")
 	case 0:
 		// properties.colx.properties.yz  vs  properties.colx_yz  -> both <Root>ColxYz
 		a := &model.Node{Kind: model.KObject, Props: []model.Prop{{Name: "yz", Node: leafObj(perm[0], perm[1])}}, Required: []string{"yz"}}
